@@ -185,7 +185,7 @@ def main():
         if not selftest():
             return 2
         from determinism import check_determinism
-        ok = check_determinism(ACMED, worker_env, families=["smoke"], seeds=4, count=6, log=log)
+        ok = check_determinism(ACMED, worker_env, families=["smoke", "F3m", "F5", "F1h", "F6"], seeds=2, count=8, log=log)
         return 0 if ok else 2
     prop = args[0]
     if prop in ("C16", "C17"):
